@@ -325,6 +325,11 @@ class Reader:
             raise IOError("Reader not open; call `open` before `read`")
         if not self.meta:
             _logger.warning("Sync trace not labeled in metadata. Assuming last trace")
+        if self.is_mtscomp and isinstance(_slice, slice) and _slice.step is not None and _slice.step < 0:
+            # mtscomp returns nothing for negative steps: read the same samples forward and flip them
+            ind = range(*_slice.indices(self.ns))
+            _slice = slice(ind[-1], ind[0] + 1, -_slice.step) if len(ind) else slice(0, 0)
+            return self.read_sync_digital(_slice)[::-1]
         return split_sync(
             self._raw[_slice, _get_sync_trace_indices_from_meta(self.meta)]
         )
